@@ -75,6 +75,7 @@ func listOf(w *vrf.RecWriter) []*model.JSONMessageHeaderV1 {
 // message that does not exist, 200 with the store's data otherwise, mutations do exactly what the
 // route says, no handler panics, and the mailbox is found under every alias of its name (C04).
 func VerifC14Handlers(m int, h int, backend int) {
+	defer vrf.VfsCleanup()
 	root := &config.Root{MailboxNaming: config.LocalNaming}
 	ap := &policy.Addressing{Config: root}
 	var st storage.Store
